@@ -150,10 +150,10 @@ Definition wf_obs (o : obs) : Prop :=
   NoDup (keys (o_nonces o)) /\ (forall k l, In (k, l) (o_nonces o) -> NoDup (keys l)).
 
 (* every observation is a well-formed map structure and passed ValidateObservation for its oracle *)
-Definition validated (sup : N -> list N) (aos : list ao) : Prop :=
-  forall o ob, In (o, ob) aos -> wf_obs ob /\ validate (sup o) ob = true.
-Definition validated_unfixed (sup : N -> list N) (aos : list ao) : Prop :=
-  forall o ob, In (o, ob) aos -> wf_obs ob /\ validate_unfixed (sup o) ob = true.
+Definition validated (sup : N -> list N) (dest : N) (aos : list ao) : Prop :=
+  forall o ob, In (o, ob) aos -> wf_obs ob /\ validate (sup o) dest ob = true.
+Definition validated_unfixed (sup : N -> list N) (dest : N) (aos : list ao) : Prop :=
+  forall o ob, In (o, ob) aos -> wf_obs ob /\ validate_unfixed (sup o) dest ob = true.
 
 Lemma nodup_app {A} (l1 l2 : list A) :
   NoDup l1 -> NoDup l2 -> (forall x, In x l1 -> In x l2 -> False) -> NoDup (l1 ++ l2).
@@ -197,8 +197,8 @@ Proof.
       * intros Hi. apply (Hout d' Hd'). now right.
 Qed.
 
-Lemma validated_commits_nodup sup o k :
-  wf_obs o -> validate sup o = true -> NoDup (entries k (o_commits o)).
+Lemma validated_commits_nodup sup dest o k :
+  wf_obs o -> validate sup dest o = true -> NoDup (entries k (o_commits o)).
 Proof.
   intros [NDk _] Hv. unfold validate in Hv. apply andb_prop in Hv. destruct Hv as [Hv _].
   apply andb_prop in Hv. destruct Hv as [_ Hs].
@@ -207,8 +207,8 @@ Proof.
   apply val_reports_nodup in Hs. eapply NoDup_map_inv. apply Hs.
 Qed.
 
-Lemma validated_msgs_nodup sup o k :
-  wf_obs o -> validate sup o = true -> NoDup (map snd (entries k (o_msgs o))).
+Lemma validated_msgs_nodup sup dest o k :
+  wf_obs o -> validate sup dest o = true -> NoDup (map snd (entries k (o_msgs o))).
 Proof.
   intros [_ [NDk [NDl _]]] Hv. unfold validate in Hv. apply andb_prop in Hv. destruct Hv as [_ Hm].
   destruct (entries_cases k _ NDk) as [->|[l [Hi ->]]]; [constructor|].
@@ -253,8 +253,8 @@ Definition tok_at (c s : N) (i : nat) (ob : obs) : list tok :=
   match nth_error (entries s (entries c (o_tokens ob))) i with Some t => [t] | None => [] end.
 
 (* ---------- C07_commit ---------- *)
-Theorem merge_commits_sound sup fchain aos r k l x :
-  NoDup (map fst aos) -> validated sup aos ->
+Theorem merge_commits_sound sup dest fchain aos r k l x :
+  NoDup (map fst aos) -> validated sup dest aos ->
   merge_commits fchain aos = Ok r -> In (k, l) r -> In x l ->
   exists f, In (k, f) fchain /\ supported_by (commits_at k) (f_plus_1 f) aos x /\
             (forall o ob, In (o, ob) aos -> NoDup (commits_at k ob)).
@@ -269,8 +269,8 @@ Proof.
   - intros o ob Hi. apply (Hnd (o, ob) Hi).
 Qed.
 
-Theorem merge_commits_complete sup fchain aos k f x rs :
-  NoDup (map fst aos) -> validated sup aos -> unknown_key fchain o_commits aos = false ->
+Theorem merge_commits_complete sup dest fchain aos k f x rs :
+  NoDup (map fst aos) -> validated sup dest aos -> unknown_key fchain o_commits aos = false ->
   In (k, f) fchain ->
   NoDup rs -> rs <> [] -> (forall o, In o rs -> exists ob, In (o, ob) aos /\ In x (commits_at k ob)) ->
   (f_plus_1 f <= N.of_nat (length rs))%N ->
@@ -286,8 +286,8 @@ Proof.
 Qed.
 
 (* ---------- C07_message (after the repair of F13a) ---------- *)
-Theorem merge_msgs_sound sup fchain aos r k l x :
-  NoDup (map fst aos) -> validated sup aos ->
+Theorem merge_msgs_sound sup dest fchain aos r k l x :
+  NoDup (map fst aos) -> validated sup dest aos ->
   merge_msgs fchain aos = Ok r -> In (k, l) r -> In x l ->
   exists f, In (k, f) fchain /\ supported_by (msgs_at k) (f_plus_1 f) aos x /\
             (forall o ob, In (o, ob) aos -> NoDup (msgs_at k ob)).
@@ -302,8 +302,8 @@ Proof.
   - intros o ob Hi. apply (Hnd (o, ob) Hi).
 Qed.
 
-Theorem merge_msgs_complete sup fchain aos k f x rs :
-  NoDup (map fst aos) -> validated sup aos -> unknown_key fchain o_msgs aos = false ->
+Theorem merge_msgs_complete sup dest fchain aos k f x rs :
+  NoDup (map fst aos) -> validated sup dest aos -> unknown_key fchain o_msgs aos = false ->
   In (k, f) fchain ->
   NoDup rs -> rs <> [] -> (forall o, In o rs -> exists ob, In (o, ob) aos /\ In x (msgs_at k ob)) ->
   (f_plus_1 f <= N.of_nat (length rs))%N ->
@@ -369,8 +369,8 @@ Proof.
 Qed.
 
 (* ---------- C07_nonce ---------- *)
-Theorem merge_nonces_sound sup fdest aos x :
-  NoDup (map fst aos) -> validated sup aos ->
+Theorem merge_nonces_sound sup dest fdest aos x :
+  NoDup (map fst aos) -> validated sup dest aos ->
   In x (merge_nonces fdest aos) ->
   supported_by nonce_triples (f_plus_1 fdest) aos x /\
   (forall o ob, In (o, ob) aos -> NoDup (nonce_triples ob)).
@@ -383,8 +383,8 @@ Proof.
   - intros o ob Hi. apply (Hnd (o, ob) Hi).
 Qed.
 
-Theorem merge_nonces_complete sup fdest aos x rs :
-  NoDup (map fst aos) -> validated sup aos ->
+Theorem merge_nonces_complete sup dest fdest aos x rs :
+  NoDup (map fst aos) -> validated sup dest aos ->
   NoDup rs -> rs <> [] -> (forall o, In o rs -> exists ob, In (o, ob) aos /\ In x (nonce_triples ob)) ->
   (f_plus_1 fdest <= N.of_nat (length rs))%N ->
   In x (merge_nonces fdest aos).
@@ -481,14 +481,14 @@ Proof.
   - intros k l Hi. rewrite forallb_forall in H0. apply nodupb_N. apply (H0 (k, l) Hi).
 Qed.
 
-Lemma validated_of_bool sup aos :
-  forallb (fun a => wf_obsb (snd a) && validate (sup (fst a)) (snd a)) aos = true -> validated sup aos.
+Lemma validated_of_bool sup dest aos :
+  forallb (fun a => wf_obsb (snd a) && validate (sup (fst a)) dest (snd a)) aos = true -> validated sup dest aos.
 Proof.
   intros H o ob Hi. rewrite forallb_forall in H. specialize (H _ Hi). cbn [fst snd] in H.
   apply andb_prop in H. destruct H as [H1 H2]. split; [now apply wf_obsb_sound|exact H2].
 Qed.
-Lemma validated_unfixed_of_bool sup aos :
-  forallb (fun a => wf_obsb (snd a) && validate_unfixed (sup (fst a)) (snd a)) aos = true -> validated_unfixed sup aos.
+Lemma validated_unfixed_of_bool sup dest aos :
+  forallb (fun a => wf_obsb (snd a) && validate_unfixed (sup (fst a)) dest (snd a)) aos = true -> validated_unfixed sup dest aos.
 Proof.
   intros H o ob Hi. rewrite forallb_forall in H. specialize (H _ Hi). cbn [fst snd] in H.
   apply andb_prop in H. destruct H as [H1 H2]. split; [now apply wf_obsb_sound|exact H2].
@@ -507,7 +507,7 @@ Definition ex_fchain : list (N * Z) := [(1, 1%Z); (2, 1%Z)].
 
 (* the hypotheses of the soundness theorems are met by a non-trivial value, and every kind of item is merged *)
 Example c07_example :
-  NoDup (map fst ex_aos) /\ validated ex_sup ex_aos /\
+  NoDup (map fst ex_aos) /\ validated ex_sup 2 ex_aos /\
   get_consensus 1 2 ex_fchain ex_aos =
     Ok (mkMerged [(1, [ex_c])] [(1, [ex_m])] [(1, [(10, [ex_t])])] [9] [(1, 4, 6)]).
 Proof.
@@ -518,12 +518,12 @@ Qed.
 (* F13a: with the validation as it was, one oracle filing one message under two sequence-number keys makes it
    valid at threshold 2 all by itself *)
 Theorem merge_msgs_unfixed_refuted :
-  exists sup fchain aos r k l x f,
-    NoDup (map fst aos) /\ validated_unfixed sup aos /\
+  exists sup dest fchain aos r k l x f,
+    NoDup (map fst aos) /\ validated_unfixed sup dest aos /\
     merge_msgs fchain aos = Ok r /\ In (k, l) r /\ In x l /\ In (k, f) fchain /\
     (N.of_nat (length (supporters msg_eqb (msgs_at k) x aos)) < f_plus_1 f)%N.
 Proof.
-  exists ex_sup, ex_fchain, [(0%N, mkObs [] [(1, [(10, ex_m); (11, ex_m)])] [] [] [])], [(1%N, [ex_m])], 1%N, [ex_m], ex_m, 1%Z.
+  exists ex_sup, 2%N, ex_fchain, [(0%N, mkObs [] [(1, [(10, ex_m); (11, ex_m)])] [] [] [])], [(1%N, [ex_m])], 1%N, [ex_m], ex_m, 1%Z.
   split; [repeat constructor; intros []|].
   split; [apply validated_unfixed_of_bool; vm_compute; reflexivity|].
   split; [vm_compute; reflexivity|].
@@ -544,7 +544,7 @@ Qed.
    turns a successful merge into an error *)
 Theorem non_blocking_refuted :
   exists sup bigF dest fchain aos a,
-    NoDup (map fst (a :: aos)) /\ validated sup (a :: aos) /\
+    NoDup (map fst (a :: aos)) /\ validated sup dest (a :: aos) /\
     is_ok (get_consensus bigF dest fchain aos) = true /\
     get_consensus bigF dest fchain (a :: aos) = Err.
 Proof.
